@@ -1,5 +1,5 @@
 INIT Init
 NEXT Next
 CONSTANTS NL = 3 W = 3 C = 3 WS = 7 Slack = 2
-INVARIANTS AddSubExact AfterBasicExact ReduceExact ContractCanonical
+INVARIANTS AddSubExact AfterBasicExact ReduceExact MulExact ContractCanonical
 CHECK_DEADLOCK FALSE
